@@ -79,13 +79,30 @@ var ruleDropLastLine = &core.Rule{ID: "R13.1", Min: 9,
 			}
 			// stop at the scanning loop
 			hdr := loopHeaderOf(f)
-			exits, err := ev.Walk(f.Blocks[0], nil, func(blk *ssa.BasicBlock) bool { return blk == hdr }, 0)
+			isScan := func(blk *ssa.BasicBlock) bool {
+				if blk == hdr && hdr != nil {
+					return true
+				}
+				for _, in := range blk.Instrs {
+					if call, ok := in.(*ssa.Call); ok && (core.CalleeIs(&call.Call, "bytes", "LastIndexByte") || core.CalleeIs(&call.Call, "bytes", "LastIndex")) && call.Call.Args[0] == ssa.Value(b) {
+						return true
+					}
+				}
+				return false
+			}
+			var exits []fde.Exit
+			var err error
+			if isScan(f.Blocks[0]) {
+				err = fmt.Errorf("the newline search is unconditional")
+			} else {
+				exits, err = ev.Walk(f.Blocks[0], nil, isScan, 0)
+			}
 			if err != nil || len(exits) != 1 {
 				s.Und(key, c.Pos(f.Pos()), fmt.Sprintf("decision not evaluable: %v", err))
 				continue
 			}
 			whole := exits[0].Ret != nil && exits[0].Ret.Results[0] == ssa.Value(b)
-			scans := exits[0].Stop == hdr
+			scans := exits[0].Stop != nil
 			if ot.whole {
 				s.Check(whole, key, c.Pos(f.Pos()), "input returned whole", "a complete input (limit 0 or shorter than the limit) loses its last line")
 			} else {
@@ -140,6 +157,51 @@ var ruleDropLastLine = &core.Rule{ID: "R13.1", Min: 9,
 							okLoop = true
 						} else {
 							why = "at the last newline the helper does not return b[:i]"
+						}
+					}
+				}
+			}
+		}
+		if !okLoop {
+			// equivalent form: i := bytes.LastIndexByte(b, '\n'); if i > 0 { return b[:i] }; return b
+			for _, ci := range core.Calls(f) {
+				call, ok := ci.(*ssa.Call)
+				if !ok || call.Call.Args[0] != ssa.Value(b) {
+					continue
+				}
+				isNL := false
+				if core.CalleeIs(&call.Call, "bytes", "LastIndexByte") && core.IsConstInt(call.Call.Args[1], '\n') {
+					isNL = true
+				}
+				if core.CalleeIs(&call.Call, "bytes", "LastIndex") {
+					if nb, ok := tree.ConstBytes(call.Call.Args[1]); ok && string(nb) == "\n" {
+						isNL = true
+					}
+				}
+				if !isNL {
+					continue
+				}
+				for _, ref := range *call.Referrers() {
+					bo, ok := ref.(*ssa.BinOp)
+					if !ok || bo.X != ssa.Value(call) {
+						continue
+					}
+					k, isC := core.ConstInt(bo.Y)
+					if !isC || !((bo.Op == token.GTR && k == 0) || (bo.Op == token.GEQ && k == 1)) {
+						continue
+					}
+					for _, r2 := range *bo.Referrers() {
+						iff, ok := r2.(*ssa.If)
+						if !ok {
+							continue
+						}
+						rt, rf := retOf(iff.Block().Succs[0]), retOf(iff.Block().Succs[1])
+						if rt == nil || rf == nil {
+							continue
+						}
+						sl, ok := rt.Results[0].(*ssa.Slice)
+						if ok && sl.X == ssa.Value(b) && sl.Low == nil && sl.High == ssa.Value(call) && rf.Results[0] == ssa.Value(b) {
+							okLoop = true
 						}
 					}
 				}
